@@ -1,9 +1,9 @@
 package main
 
 import (
-	"fmt"
 	"encoding/hex"
 	"encoding/json"
+	"fmt"
 	"strings"
 
 	"github.com/pentops/j5/lib/id62"
